@@ -654,6 +654,45 @@ func TestVerifC06(t *testing.T) {
 			rep.Sample(map[string]interface{}{"attack": "mitm-flip/2/bit17", "script": "honest A and B, a middleman flips bit 17 of the third frame"})
 		}
 	}
+	// ---- overlapping sessions in one process ----------------------------------------------------------------
+	// a device answers (and makes) several contact requests at the same time: every honest session must complete with the
+	// right key, whatever the other sessions of the process are doing (nothing of a session may live in shared state)
+	for batch := 0; batch < verifkit.Pick(40, 400) && rep.ViolationCount() < 20; batch++ {
+		const n = 8
+		type sess struct {
+			a, b   p2pcrypto.PrivKey
+			rq, rs <-chan c06Result
+		}
+		B := genKey() // one responder identity answering all of them, as a device does
+		var ss []sess
+		for i := 0; i < n; i++ {
+			a := genKey()
+			b := B
+			if i%2 == 1 {
+				b = genKey()
+			}
+			x, y := newDuplex()
+			ss = append(ss, sess{a: a, b: b, rq: c06RunRequester(x, a, b.GetPublic()), rs: c06RunResponder(y, b)})
+		}
+		for i, s := range ss {
+			r1, ok1 := c06Wait(s.rq)
+			r2, ok2 := c06Wait(s.rs)
+			rep.Case(fmt.Sprintf("overlapping-honest/%d/%d", batch, i))
+			rep.Eval(1)
+			switch {
+			case !ok1 || !ok2:
+				rep.Inconclusivef("overlapping honest session %d/%d still running after 30 s", batch, i)
+			case r1.pnc != nil || r2.pnc != nil:
+				rep.Violate("C06/panic/overlapping", fmt.Sprintf("%v / %v", r1.pnc, r2.pnc), batch)
+			case r1.err != nil || r2.err != nil:
+				rep.Violate("C06/honest-handshake-fails/overlapping-sessions", fmt.Sprintf("an honest handshake fails when other handshakes run in the same process at the same time: requester err=%v responder err=%v", r1.err, r2.err), batch)
+			case r2.key == nil || !r2.key.Equals(s.a.GetPublic()):
+				rep.Violate("C06/impersonation/overlapping-sessions", "with overlapping sessions the responder reports the key of another session's requester", batch)
+			default:
+				rep.Count("overlapping_honest_ok", 1)
+			}
+		}
+	}
 	if rep.Counter("honest_ok") == 0 || rep.Counter("responder_refused") == 0 {
 		rep.Inconclusivef("controls missing: honest_ok=%d responder_refused=%d", rep.Counter("honest_ok"), rep.Counter("responder_refused"))
 	}
